@@ -691,7 +691,11 @@ func scanPolyOut(c *core.Ctx) []ob {
 				case *ast.ForStmt:
 					find(v.Body.List)
 				case *ast.RangeStmt:
-					if mentions(v.X) {
+					// ranging over the output reads it only when the element values are taken (`for i := range p2.Coeffs`
+					// reads a length); a call that files the operands in a table (`range r.parts(p1, p2, p3)`) is a
+					// view of them, the uses are in the body
+					_, viaCall := unparen(v.X).(*ast.CallExpr)
+					if mentions(v.X) && v.Value != nil && !viaCall {
 						first = st
 						return
 					}
